@@ -26,9 +26,9 @@ Scope
        quotes, Table Column, column("x"), column(unknown), typed column(), literal_column, aliased-table column, other
        table's column, ORM attribute, excluded column, labeled column, function}  x  SET value {int, str, None, excluded /
        inserted column, arithmetic with it, bindparam, scalar subquery, function, CASE, CAST, NULL, text(), typed literal,
-       literal_column}  x  DO UPDATE WHERE {comparison, against excluded, text(), IN list, EXISTS, bindparam, IS NULL,
+       literal_column, IN list}  x  DO UPDATE WHERE {comparison, against excluded, text(), IN list, EXISTS, bindparam, IS NULL,
        3-way AND}  x  RETURNING {none, column, whole table, labeled expression, two columns}  x  position {top level,
-       CTE selected from, add_cte of a SELECT, CTE inside the IN-subquery of an UPDATE, source of INSERT..FROM SELECT}.
+       CTE selected from, add_cte of a SELECT, CTE inside the EXISTS-subquery of an UPDATE, source of INSERT..FROM SELECT}.
      Combination: base choice (every value of every dimension with the other dimensions canonical) + all pairs
      SET key x SET value, SET key x position, SET key x SET form, conflict target x index_where, WHERE x position.
 """
